@@ -239,7 +239,12 @@ def ev_toml(c) -> R:
         materialise(root, rec)
         out = run_command(cmd, root)
         label = f"{cfg} with " + ", ".join(f"{k} = {SHAPES[s]}" for k, s in c["repl"].items())
-        judge(r, out, cmd, label, "toml|" + "+".join(f"{k}:{s}" for k, s in sorted(c["repl"].items())), config_path=cfg)
+        # values of a plainly wrong TOML type are a configuration error (nothing is said here about odd-but-typed values)
+        wrong = any((k == "version" and s not in ("integer", "absent")) or
+                    (k in ("path", "precedence", "SPDX-FileCopyrightText", "SPDX-License-Identifier")
+                     and s in ("integer", "float", "boolean", "datetime", "int-array", "table-array", "inline-table", "nested-array"))
+                    for k, s in c["repl"].items())
+        judge(r, out, cmd, label, "toml|" + "+".join(f"{k}:{s}" for k, s in sorted(c["repl"].items())), config_path=cfg, must_be_config_error=wrong)
         outs.append(out.exit_code)
     r.evals = len(COMMANDS)
     r.outcome = f"toml-exit{max(outs[:2])}"
